@@ -125,8 +125,12 @@ Lemma gen_ncc_ok (eps : K) : gen_ncc eps X Y = [ncc_one eps X Y].
 Proof. gen_tac. Qed.
 
 Lemma gen_ncc_batch_ok (eps : K) :
-  Some (gen_ncc_batch_mean eps X Y) = b_ncc RMean eps [[[x0; x1]]; [[x2; x3]]] [[[y0; y1]]; [[y2; y3]]].
+  Some (gen_ncc_batch_mean eps X Y) = b_ncc RMean eps [[[x0; x1]]; [[x2; x3]]] [[[y0; y1]]; [[y2; y3]]] [1; 2]%nat None.
 Proof. fcbv. apply f_equal. list_eq; div_congr. Qed.
+
+(* with a mask: weighted correlation *)
+Lemma gen_ncc_mask_ok (eps : K) : gen_ncc_mask eps X Y W = [ncc_w eps X Y W].
+Proof. gen_tac. Qed.
 
 End V4.
 
@@ -140,6 +144,13 @@ Lemma mi_default_range_ok (fmin2 fmax2 : K -> K -> K) (xmin xmax tmin tmax : K) 
 Proof.
   split; [reflexivity|]. intros Hmin Hmax. unfold gen_mi_default_range. rewrite (Hmin tmin xmin), (Hmax tmax xmax). reflexivity.
 Qed.
+
+(* ncc_loss: mask of shape (1, 1, X) on a (2, 2, X) batch, broadcast over items and channels *)
+Lemma gen_ncc_mask_bcast_ok (eps x0 x1 x2 x3 x4 x5 x6 x7 y0 y1 y2 y3 y4 y5 y6 y7 w0 w1 : K) :
+  Some (gen_ncc_mask_bcast eps [x0; x1; x2; x3; x4; x5; x6; x7] [y0; y1; y2; y3; y4; y5; y6; y7] [w0; w1])
+  = b_ncc RSum eps [[[x0; x1]; [x2; x3]]; [[x4; x5]; [x6; x7]]] [[[y0; y1]; [y2; y3]]; [[y4; y5]; [y6; y7]]] [1; 2]%nat
+      (Some ([[[w0; w1]]], [1; 2]%nat)).
+Proof. fcbv. apply f_equal. list_eq; div_congr. Qed.
 
 (* mask of shape (1, 1, X) on a (2, 2, X) batch *)
 Lemma gen_ssd_bcast_ok (x0 x1 x2 x3 x4 x5 x6 x7 y0 y1 y2 y3 y4 y5 y6 y7 w0 w1 : K) :
